@@ -92,6 +92,8 @@ class Tracker(object):
         self.activity = {}        # thread -> phase in which the executor task it is running was started
         self.attempt_end = {}     # thread -> phase in which the latest connection attempt of its current activity ended
         self.attempt_log = []     # [phase at the start of Connection.factory(), phase at its end, 'connected'|'failed']
+        self.running = {}         # thread -> Activity of the executor task it is running now
+        self.handler_runs = []    # Activity of every _ReconnectionHandler.run task (scheduled reconnection attempt) that was run
 
     @staticmethod
     def me():
@@ -115,6 +117,38 @@ class Tracker(object):
     def draining(self):
         if self.phase in ('in', 'in2'):
             self.phase = 'draining' + self.phase[2:]
+
+
+class Activity(object):
+    """One executor task while and after it runs: what it is and the connections it constructed.  For a scheduled
+    reconnection attempt (`_ReconnectionHandler.run` of a control-connection or host reconnection handler) also the
+    handler and whether it was cancelled before / while the attempt ran."""
+    def __init__(self, label, fn):
+        self.label = label
+        self.conns = []
+        h = getattr(fn, '__self__', None)
+        self.handler = h if label.endswith('ReconnectionHandler.run') and hasattr(h, '_cancelled') else None
+        self.kind = None if self.handler is None else 'control' if hasattr(self.handler, 'control_connection') else 'host'
+        self.cancelled_at_start = self.handler._cancelled if self.handler is not None else None
+        self.cancelled_at_connect = None   # ... when the latest Connection.factory() call of the attempt returned or raised
+        self.cancelled_at_end = None
+
+    def cancelled_during_attempt(self):
+        """The handler was cancelled (ControlConnection.shutdown(), Cluster.on_up() / on_remove() / a newer reconnector) after
+        this attempt had begun and before it was over.  A host reconnection attempt is over when its connection is there
+        (its callback, Cluster.on_up(), cancels the handler itself); a control connection attempt goes on on the new
+        connection (REGISTER, system tables) until the task ends."""
+        if self.handler is None or self.cancelled_at_start:
+            return False
+        return bool(self.cancelled_at_connect if self.kind == 'host' else self.cancelled_at_end)
+
+    def stage(self):
+        """None (no connection of this activity is open) | 'connecting' (opened, handshake under way) | 'connected'
+        (handshake done, the task goes on using it: registering watchers, reading the system tables, refreshing)"""
+        live = [c for c in self.conns if c.opened and not c.is_closed]
+        if not live:
+            return None
+        return 'connecting' if any(c.handshake_phase == 'never' for c in live) else 'connected'
 
 
 class _HandshakeEvent(VEvent):
@@ -158,6 +192,9 @@ class C45Conn(VConnection):
         self.prev_attempt_end = w.c45.attempt_end.get(w.c45.me())
         self.use_log = []         # [keyspace, phase when the node received USE, phase when its answer was read]
         self.world = w
+        act = w.c45.running.get(w.c45.me())
+        if act is not None:
+            act.conns.append(self)
         VConnection.__init__(self, *a, **kw)     # raises when the server refuses the connection
         self.opened = True
 
@@ -173,6 +210,9 @@ class C45Conn(VConnection):
         finally:
             rec[1] = trk.phase
             trk.attempt_ended()
+            act = trk.running.get(trk.me())
+            if act is not None and act.handler is not None:
+                act.cancelled_at_connect = act.handler._cancelled
 
     def close(self):
         # also when it is closed already: the caller is giving this connection up now
@@ -291,12 +331,24 @@ class C45World(object):
         def tracked_run_task(index=0):
             me = trk.me()
             outer = trk.activity.get(me, Tracker)
+            outer_act = trk.running.get(me)
             trk.activity[me] = trk.phase
             trk.begin_activity()
+            act = None
+            if index < len(w.tasks) and not w.tasks[index][0].cancelled():
+                act = trk.running[me] = Activity(w.tasks[index][4], w.tasks[index][1])
+                if act.handler is not None:
+                    trk.handler_runs.append(act)
             try:
                 return run_task(index)
             finally:
                 trk.begin_activity()
+                if act is not None and act.handler is not None:
+                    act.cancelled_at_end = act.handler._cancelled
+                if outer_act is None:
+                    trk.running.pop(me, None)
+                else:
+                    trk.running[me] = outer_act
                 if outer is Tracker:
                     trk.activity.pop(me, None)
                 else:
@@ -474,6 +526,10 @@ class C45World(object):
             any('_replace' in l or '_create_new_connection' in l for l in labels)
         fl['trashed_connection'] = any(getattr(p, '_trash', None) for p in pools)
         fl['connection_mid_handshake'] = any(c.opened and not c.is_closed and c.handshake_phase == 'never' for c in w.conns)
+        # a scheduled reconnection attempt (_ReconnectionHandler.run moved to the executor by the scheduler) is running right now
+        for act in self.trk.running.values():
+            if act.handler is not None and act.stage() is not None:
+                fl['scheduled_%s_reconnection_attempt_%s' % (act.kind, act.stage())] = True
         fl['tasks_queued'] = bool(w.tasks)
         fl['scheduled_entries'] = bool(w.sched_tasks)
         return fl
